@@ -13,6 +13,6 @@ t1, t2 = tables.split("\n\n", 1)
 out = (d.rstrip("\n") + "\n" + sec.rstrip("\n") + "\n\n### 10.5 Status per property (generated)\n\n"
        "Instances are those of the last run of each check (quick or thorough tier).\n\n" + t1 +
        "\n\n### 10.6 Which check catches which change (generated)\n\n`seeded/Cxx` = independently seeded change (first sentence of its `meta.json` "
-       "summary; `Cxxb` = second round); other rows are my own mutants; `benign-*` rows are behaviour-preserving edits that must stay silent.\n\n" + t2)
+       "summary; `Cxxb` = second round, `Cxxc` = third round); other rows are my own mutants; `benign-*` rows are behaviour-preserving edits that must stay silent.\n\n" + t2)
 open(os.path.join(HERE, "DESIGN.md"), "w").write(out)
 print("DESIGN.md rebuilt:", len(out.splitlines()), "lines")
